@@ -54,6 +54,11 @@ fn write_side(ctx: &mut Ctx, idx: u64) {
         let rec = other_record(&mut g);
         p.secs[0].push(rec);
     }
+    // authority records: the OPT must still land in the additional section
+    for _ in 0..*g.r.pick(&[0usize, 0, 1, 2]) {
+        let rec = other_record(&mut g);
+        p.secs[1].push(rec);
+    }
     ctx.case(true, fnv(format!("w{:?}", p).as_bytes()));
     ctx.sample("write", || pkt_json(&p));
     let lib = match monitor::guard(|| bridge::to_lib(&p)) {
@@ -83,9 +88,18 @@ fn write_side(ctx: &mut Ctx, idx: u64) {
         };
         let opts: Vec<&RRW> = t.env.secs[2].iter().filter(|r| r.rtype == 41).collect();
         let elsewhere = t.env.secs[0].iter().chain(t.env.secs[1].iter()).filter(|r| r.rtype == 41).count();
-        if opts.len() != 1 || elsewhere != 0 || t.env.counts[3] as usize != p.secs[2].len() + 1 {
-            ctx.violation("opt-record", "opt-record-count", format!("{} OPT records in additional, {} elsewhere, ARCOUNT {}", opts.len(), elsewhere, t.env.counts[3]), case());
+        if opts.len() != 1 || elsewhere != 0 || t.env.counts[3] as usize != p.secs[2].len() + 1
+            || t.env.counts[2] as usize != p.secs[1].len() || t.env.counts[1] as usize != p.secs[0].len() {
+            ctx.violation("opt-record", "opt-record-count", format!("{} OPT records in additional, {} elsewhere, counts {:?} for sections of {}/{}/{} records + OPT", opts.len(), elsewhere, t.env.counts, p.secs[0].len(), p.secs[1].len(), p.secs[2].len()), case());
             continue;
+        }
+        match parse_obs(&out) {
+            Ok(Ok(back)) => {
+                if back.edns != p.edns || back.rcode != p.rcode || back.secs[1].len() != p.secs[1].len() || back.secs[2].len() != p.secs[2].len() {
+                    ctx.violation("opt-record", "own-output-edns-lost", format!("parsing the library's own output shows edns {:?} rcode {} sections {}/{}/{}", back.edns.as_ref().map(|e| (e.udp, e.version)), back.rcode, back.secs[0].len(), back.secs[1].len(), back.secs[2].len()), case());
+                }
+            }
+            _ => ctx.violation("opt-record", "own-output-unparseable", "the library rejects its own EDNS output".into(), case()),
         }
         let o = opts[0];
         let ttl = o.ttl.to_be_bytes();
